@@ -640,10 +640,14 @@ def _grid_geoms(tier):
         for y in ys:
             out.append([x, y])
     out.append([(0.0, 1.0, 0.25), (1.0e18, 1.0e20, 3.0e19)])
+    out.append([(0.0, 1.0, 0.25), (2000.0, 2001.0, 0.1)])          # far offset on the SECOND axis (and finer there)
+    out.append([(-0.3, 0.8, 0.3), (-2000.0, -1999.0, 0.25)])
     g3 = [[(0.0, 1.0, 0.3), (-0.3, 0.8, 0.3), (2.0, 3.5, 0.5)],
           [(0.0, 1.0, 0.3), (-0.3, 0.8, 0.3), (0.0, 0.5, 1.5)],
           [(1000.0, 1001.0, 0.3), (-0.3, 0.8, 0.3), (2.0, 3.5, 0.5)],
           [(-2.5, -2.0, 0.25), (1.7, 2.8, 0.7), (-0.3, 0.8, 0.3)],
+          [(0.0, 1.0, 0.3), (1000.0, 1001.0, 0.3), (2.0, 3.5, 0.5)],
+          [(0.0, 1.0, 0.3), (-0.3, 0.8, 0.3), (-1000.0, -999.0, 0.25)],
           [(2.0 ** 31, 2.0 ** 31 + 8.0, 4.0), (1.0e18, 1.0e20, 5.0e19), (2.0, 3.5, 0.5)]]      # (the smooth function has exp(z/2): z stays small)
     if tier == "thorough":
         # (6x6x7 intervals; z centred on the origin: with z in (2, 3.5) the raw-coordinate polynomial of the implementation
